@@ -58,7 +58,7 @@ fn c15_handle_recv_and_try_recv() {
     assert!(FLUSHES.load(SeqCst) == 0, "C15.handle.never_flushes");
 }
 
-// BOUND: receive script of at most 4 entries (Line / Shutdown / Empty / Disconnected in any order), one write failure position
+// BOUND: receive script of at most 3 entries (Line / Shutdown / Empty / Disconnected in any order), one write failure position
 #[kani::proof]
 #[kani::unwind(8)]
 #[kani::stub(core::fmt::Formatter::pad, pad_stub)]
@@ -66,7 +66,8 @@ fn c15_handle_recv_and_try_recv() {
 #[kani::stub(crossbeam_channel::Receiver::try_recv, chan::try_recv_stub)]
 fn c15_work_drains_in_order_then_flushes_bounded() {
     let mut w = worker();
-    let script: [u8; 4] = nd();
+    let s3: [u8; 3] = nd();
+    let script: [u8; 4] = [s3[0], s3[1], s3[2], 3];   // a 4th receive, if any, reports Disconnected
     let mut i = 0; while i < 4 { kani::assume(script[i] < 4); chan::SCRIPT[i].store(script[i] as usize, SeqCst); i += 1; }
     kani::assume(script[0] != 2);                      // the blocking recv cannot report Empty
     let fail_at: usize = nd(); kani::assume(fail_at <= 4); FAIL_AT.store(if fail_at == 4 { usize::MAX } else { fail_at }, SeqCst);
